@@ -32,6 +32,8 @@ class LbWorld(object):
     self.universe = params['n'] + params.get('extra', 0)
     self.reg = stubs.Registry()
     self.reg.default_open = params.get('open_mode', 'ok')
+    self.reg.ok_first = params.get('ok_first', 0)
+    self.m_ema = None          # reference EMA of total outstanding: (value, time)
     Prov = stubs.make_provider_class()
     self.ssp = Prov([stubs.make_server(i) for i in range(self.n)])
     if params.get('gate'):
@@ -104,6 +106,7 @@ class LbWorld(object):
     choices = op[-1] if isinstance(op[-1], list) else []
     ch = world.Chooser(choices)
     world.set_chooser(ch)
+    self.pre = self._snap()
     try:
       getattr(self, '_op_' + name)(*op[1:-1] if isinstance(op[-1], list) else op[1:])
       vloop.run_ready()
@@ -322,6 +325,8 @@ class LbWorld(object):
           if rid2 == r['rid']:
             r['serial'] = s2
             r['waiting'] = False
+    if self.p.get('c06') and op is not None:
+      self._c06(name, op)
     in_heap = {}
     for n in self.heap_nodes():
       s = n.channel.serial
@@ -401,6 +406,72 @@ class LbWorld(object):
       self.v('C05.probe', 'dispatching %d requests reached endpoints %r, the server set is %r' % (rounds, hit, sorted(self.members)),
              kind=self.kind)
 
+  def _snap(self):
+    lb = self.lb
+    nodes = self.heap_nodes()
+    d = {'size': len(nodes), 'members': len(self.members),
+         'all_open': not any(n.channel.is_closed for n in nodes),
+         'healthy': sum(1 for n in nodes if n.channel.is_open),
+         'idle': len(self.idle_eps()), 'total': self.total_outstanding_dispatched(), 'now': self.lp.now()}
+    if self.kind == 'aperture':
+      d['pending'] = len(lb._pending_endpoints)
+    return d
+
+  def _ema_update(self, ts, sample):
+    if self.m_ema is None:
+      self.m_ema = (float(sample), ts)
+    else:
+      val, t0 = self.m_ema
+      w = math.exp(-float(ts - t0) / 5.0)
+      self.m_ema = (sample * (1 - w) + val * w, ts)
+    return self.m_ema[0]
+
+  def _c06(self, name, op):
+    """Aperture clauses: bounds per step, EMA tracking, step response."""
+    p = self.p
+    lb = self.lb
+    pre = self.pre
+    post = self._snap()
+    mn, mx = p.get('min_size', 1), p.get('max_size', 2 ** 31)
+    lo, hi = p.get('min_load', 0.5), p.get('max_load', 2.0)
+    adjusted = False
+    if name == 'D' and post['total'] == pre['total'] + 1:
+      adjusted = True
+    if name == 'C':
+      adjusted = True
+    # bounds
+    if post['size'] < pre['size'] and name not in ('Leave', 'LeaveQ'):
+      floor = min(mn, post['members'])
+      if post['size'] < floor:
+        self.v('C06.min-size', 'after %r: active set shrank from %d to %d, below min(min_size=%d, members=%d)'
+               % (op, pre['size'], post['size'], mn, post['members']))
+    if post['size'] > pre['size'] and name in ('D', 'C') and pre['all_open']:
+      if post['size'] > mx:
+        self.v('C06.max-size', 'after %r: load-driven growth took the active set from %d to %d, beyond max_size=%d'
+               % (op, pre['size'], post['size'], mx))
+    if adjusted:
+      ema = self._ema_update(self.lp.now(), post['total'])
+      if abs(lb._ema.value - ema) > 1e-9:
+        self.v('C06.ema', 'after %r: smoothed load is %.6f, reference EMA of outstanding requests is %.6f' % (op, lb._ema.value, ema))
+      if pre['all_open'] and pre['size'] > 0 and p.get('c06_response', True):
+        load = ema / pre['size']
+        if load >= hi and pre['idle'] > 0 and pre['size'] < mx:
+          want = pre['size'] + 1
+          why = 'load %.3f >= max_load %.2f, %d idle members, size %d < max_size' % (load, hi, pre['idle'], pre['size'])
+        elif load <= lo and pre['size'] > mn and pre['healthy'] > mn and not pre['pending']:
+          want = pre['size'] - 1
+          why = 'load %.3f <= min_load %.2f, size %d > min_size %d, nothing pending' % (load, lo, pre['size'], mn)
+        else:
+          want = pre['size']
+          why = 'load %.3f inside the band or size pinned (size %d, idle %d, pending %d)' % (load, pre['size'], pre['idle'], pre['pending'])
+        ok_sizes = {want}
+        if load <= lo and pre['size'] > mn and pre['healthy'] > mn and pre['pending']:
+          # the statement's shrink condition holds but an expansion is still pending: the implementation defers the
+          # contraction; the statement allows either
+          ok_sizes.add(pre['size'] - 1)
+        if post['size'] not in ok_sizes:
+          self.v('C06.response', 'after %r: active set went %d -> %d, expected %d (%s)' % (op, pre['size'], post['size'], want, why))
+
   def total_outstanding_dispatched(self):
     return sum(1 for r in self.requests if not r['done'] and r['serial'] is not None)
 
@@ -434,6 +505,8 @@ class LbWorld(object):
     timers = tuple(round(at - now, 6) for (at, seq, tm) in self.lp.active_timers() if at - now < 1000 and self.p.get('key_timers'))
     k.append(timers)
     k.append(self._nnotif() if self.p.get('max_notifications') else 0)
+    if self.m_ema is not None and self.p.get('c06'):
+      k.append((round(self.m_ema[0], 9), round(now - self.m_ema[1], 6)))
     return repr(k)
 
 
